@@ -311,52 +311,61 @@ Qed.
 
 (* ---------- one channel ---------- *)
 
-Lemma decode_channel_enc dt a g c Wc vl :
-  g_bx g <> 0 -> g_by g <> 0 -> g_bz g <> 0 ->
+(* The decoder hands buf[offset:] to the channel loop: the channel's own words
+   followed by whatever comes after them in the file. *)
+Lemma blk_enc_app dt Wc tail k vals :
+  2 * k + 1 < lenN Wc -> blk_enc dt Wc k vals -> blk_enc dt (Wc ++ tail) k vals.
+Proof.
+  intros Hk (lo & vo & bits & B1 & B2 & B3 & B4 & B5 & B6 & B7).
+  exists lo, vo, bits.
+  split; [exact B1|]. split; [rewrite nthN_app1 by lia; exact B2|].
+  split; [rewrite nthN_app1 by lia; exact B3|]. split; [exact B4|]. split; [exact B5|].
+  split; now apply seg_app_r.
+Qed.
+
+Lemma decode_channel_enc dt a g c Wc vl tail :
+  g_bx g <> 0 -> g_by g <> 0 -> g_bz g <> 0 -> w32 tail ->
   chan_enc dt a g c Wc vl ->
-  decode_channel dt (bytes_of_words Wc) (g_bx g * g_by g * g_bz g)
+  decode_channel dt (bytes_of_words (Wc ++ tail)) (g_bx g * g_by g * g_bz g)
                  (grid_x a g * grid_y a g * grid_z a g) = Ok vl.
 Proof.
-  intros Hbx Hby Hbz Hce. unfold chan_enc in Hce. cbv zeta in Hce.
+  intros Hbx Hby Hbz Htail Hce. unfold chan_enc in Hce. cbv zeta in Hce.
   destruct Hce as (HW & Hl & Hvl & Hblk & _).
   unfold decode_channel. apply mapM_range_ok with (d := []); [exact Hvl|].
   intros k Hk. destruct (Hblk k Hk) as (Hlen & Hbound & Hbe).
   replace (g_bx g * g_by g * g_bz g) with (lenN (nthN vl k [])) by (rewrite Hlen; lia).
   apply decode_block_enc; try assumption.
-  - nia.
+  - apply Forall_app. now split.
+  - rewrite lenN_app. nia.
   - intros E. rewrite E, lenN_nil in Hlen. nia.
+  - apply blk_enc_app; [nia|exact Hbe].
 Qed.
 
 (* ---------- the channel loop over the file ---------- *)
 
 Lemma decode_channels_layout dt B nblk : forall rest pre vls,
-  Forall2 (fun Wc vl => decode_channel dt (bytes_of_words Wc) B nblk = Ok vl /\ 2 * nblk <= lenN Wc)
+  Forall2 (fun Wc vl => (forall tail, w32 tail ->
+                           decode_channel dt (bytes_of_words (Wc ++ tail)) B nblk = Ok vl) /\
+                        2 * nblk <= lenN Wc /\ w32 Wc)
           rest vls ->
   decode_channels dt (bytes_of_words (pre ++ concat rest)) B nblk
     (map (fun o => (4 * Z.of_N o)%Z) (offsets_from (lenN pre) rest)) = Ok vls.
 Proof.
   induction rest as [|Wc r IH]; intros pre vls HF.
   - inversion HF. reflexivity.
-  - inversion HF as [|? vl ? vls' [Hdec Hlen] HF']; subst.
+  - inversion HF as [|? vl ? vls' (Hdec & Hlen & Hw) HF']; subst.
     cbn [offsets_from map decode_channels concat].
     rewrite zlen_words, !lenN_app.
     destruct (Z.ltb_spec (4 * Z.of_N (lenN pre + (lenN Wc + lenN (concat r))))
                          (4 * Z.of_N (lenN pre) + 8 * Z.of_N nblk)) as [Hbad|_]; [lia|].
-    assert (Ecb : (match map (fun o => (4 * Z.of_N o)%Z) (offsets_from (lenN pre + lenN Wc) r) with
-                   | [] => py_slice (bytes_of_words (pre ++ Wc ++ concat r)) (4 * Z.of_N (lenN pre))
-                                    (4 * Z.of_N (lenN pre + (lenN Wc + lenN (concat r))))
-                   | next :: _ => py_slice (bytes_of_words (pre ++ Wc ++ concat r))
-                                           (4 * Z.of_N (lenN pre)) next
-                   end) = bytes_of_words Wc).
-    { destruct r as [|W2 r2].
-      - cbn [offsets_from map concat]. rewrite app_nil_r, lenN_nil, N.add_0_r.
-        rewrite py_slice_words by (rewrite lenN_app; lia).
-        rewrite sub_app2 by lia. rewrite N.sub_diag. now rewrite sub_all.
-      - cbn [offsets_from map].
-        rewrite py_slice_words by (rewrite !lenN_app; lia).
-        rewrite sub_app2 by lia. rewrite N.sub_diag.
-        rewrite sub_app1 by lia. now rewrite sub_all. }
-    rewrite Ecb, Hdec. cbn [bind].
+    assert (Ecb : py_slice (bytes_of_words (pre ++ Wc ++ concat r)) (4 * Z.of_N (lenN pre))
+                           (4 * Z.of_N (lenN pre + (lenN Wc + lenN (concat r))))
+                  = bytes_of_words (Wc ++ concat r)).
+    { rewrite py_slice_words by (rewrite !lenN_app; lia).
+      rewrite sub_app2 by lia. rewrite N.sub_diag.
+      rewrite <- lenN_app. now rewrite sub_all. }
+    rewrite Ecb, Hdec. 2:{ apply w32_concat. clear - HF'. induction HF' as [|? ? ? ? (_ & _ & H) _ IH']; constructor; auto. }
+    cbn [bind].
     specialize (IH (pre ++ Wc) vls' HF').
     rewrite <- app_assoc in IH. rewrite lenN_app in IH. rewrite IH. reflexivity.
 Qed.
@@ -473,8 +482,8 @@ Proof.
     apply Forall2_of_nthN with (d := []) (d' := []).
     - unfold lenN at 2. rewrite Hvls_len. lia.
     - intros c Hc. rewrite Hlen in Hc. specialize (Hvls' c Hc). split.
-      + apply (decode_channel_enc dt a g c); assumption.
-      + unfold chan_enc in Hvls'. cbv zeta in Hvls'. destruct Hvls' as (_ & Hl2 & _). exact Hl2. }
+      + intros tail Htail. apply (decode_channel_enc dt a g c); assumption.
+      + unfold chan_enc in Hvls'. cbv zeta in Hvls'. destruct Hvls' as (Hw2 & Hl2 & _). split; assumption. }
   rewrite Edc. cbn [bind]. f_equal.
   transitivity (tab4 (a_c a) (a_z a) (a_y a) (a_x a) (get4 a));
     [|apply tab4_get4; destruct Hwf; assumption].
